@@ -285,6 +285,81 @@ def reset_before_accept(_):
     return out
 
 
+def outgoing_victim(_):
+    """the honest connection is one the node opened itself (to H, which listens on H's address); the attacker connects from the
+    SAME host as H and, once greeted, announces peers: other hosts with H's port, H's address with one byte of the IP altered,
+    H's own address.  Whatever the node then dials, its established connection to H stays as it was"""
+    from ipaddress import IPv6Address
+    from skepticoin.networking import messages as M
+    from skepticoin.networking.remote_peer import load_peers_from_list
+    c09.setup_worker()
+    out = []
+    HH, HP = '5.5.5.9', 2412
+    menus = {
+        'other-host-same-port': [('9.9.9.9', HP)],
+        'ip-byte-altered': [('5.5.5.8', HP), ('5.5.4.9', HP), ('133.5.5.9', HP)],
+        'own-address-of-H': [(HH, HP)],
+        'many': [('9.9.%d.9' % i, HP) for i in range(1, 9)] + [(HH, HP + 1)],
+    }
+    for name, entries in menus.items():
+        w = c09.World()
+        try:
+            net, node = w.net, w.node
+            lst = simnet.FakeSocket(net, None)
+            lst.local = (HH, HP)
+            net.listeners[(HH, HP)] = lst
+            node.nm.disconnected_peers.update(load_peers_from_list([(HH, HP, 'OUTGOING')]))
+            net.clock.t += 1
+            node.tick()
+            dial = [s_ for s_ in list(net.dialling) if s_.remote == (HH, HP)]
+            if not dial:
+                out.append(('harness', 'the node did not dial H'))
+                continue
+            Hc = simnet.Remote.for_dial(net, node, dial[0], HH)
+            node.flush()
+            Hc.hello(nonce=4711)
+            node.tick()
+            Hc.received()
+            hpeer = node.peer_for(Hc.node_sock)
+            if hpeer is None or not (hpeer.hello_sent and hpeer.hello_received):
+                out.append(('harness', 'outgoing connection to H not greeted'))
+                continue
+            X = simnet.Remote(net, node, host=HH)
+            X.hello(nonce=999)
+            node.tick()
+            X.received()
+            X.send(M.PeersMessage([M.Peer(int(net.clock()), IPv6Address('::ffff:' + h), p) for h, p in entries]))
+            for dt in (1, 11, 25):
+                net.clock.t += dt
+                node.tick()
+                for s_ in list(net.dialling):
+                    if s_.remote == (HH, HP):
+                        simnet.Remote.for_dial(net, node, s_, HH)     # H listens: the connection is established
+                        node.flush()
+                    else:
+                        net.complete_dial(s_)
+                        if s_.error is not None:
+                            node.read_event(s_)
+                node.tick()
+            what = None
+            if Hc.node_sock.closed or Hc.node_sock not in node.lp.selector.get_map():
+                what = "the node closed its established outgoing connection to the honest peer"
+            elif not any(p is hpeer for p in node.nm.connected_peers.values()):
+                what = "the honest peer is no longer among the connected peers"
+            else:
+                Hc.received()
+                Hc.send(M.GetPeersMessage())
+                if 'PeersMessage' not in [type(m).__name__ for hh, m in Hc.received()]:
+                    what = "the honest peer's request is no longer answered"
+            if what:
+                out.append(('victim-affected', "%s after a peer on the same host announced %s (%s)" % (what, name, entries[:3])))
+            if net.escaped:
+                out.append(('exception-escaped', "exception escaped the node's event handling: %s" % (net.escaped[0],)))
+        finally:
+            w.close()
+    return out
+
+
 def transcript(phase):
     w = AttackWorld(phase, False)
     try:
@@ -513,6 +588,8 @@ def run(ctx):
     ctx.log("mutants per phase", nm)
     for key, what in ctx.pmap(reset_before_accept, [0, 1])[0]:
         ctx.violation(key, what, {'reset_before_accept': True})
+    for key, what in ctx.pmap(outgoing_victim, [0, 1])[0]:
+        ctx.violation(key, what, {'outgoing_victim': True})
     res = ctx.pmap(_worker, jobs)
     tot = {'runs': 0, 'attacker_dropped': 0, 'block_entered': 0}
     fam = {}
@@ -542,6 +619,8 @@ def run(ctx):
 
 
 def replay(data, ctx):
+    if data.get('outgoing_victim'):
+        return outgoing_victim(0)
     if data.get('reset_before_accept'):
         return reset_before_accept(0)
     c09.setup_worker()
